@@ -141,7 +141,7 @@ pub fn lookup_scenarios(thorough: bool) -> Vec<Scenario> {
             }
         }
         // resolver flag NO_SYMLINKS on the '..'-heavy, link-free paths
-        for p in ["a/b/../b/c/../../b/c/d", "a/b/c/d/../../../../e/f"] {
+        for p in ["a/b/../b/c/../../b/c/d", "a/b/c/d/../../../../e/f", "a/b/c/../../../../../../a"] {
             let mut ops = vec![Op::new("resolve").root(ROOT_IN).path(p).rflags(RESOLVE_NO_SYMLINKS)];
             if thorough { ops.push(Op::new("open_subpath").root(ROOT_IN).path(p).flags(O_RDONLY | O_NONBLOCK).rflags(RESOLVE_NO_SYMLINKS)); ops.push(Op::new("resolve_nofollow").root(ROOT_IN).path(p).rflags(RESOLVE_NO_SYMLINKS)); }
             for op in ops { v.push(Scenario { name: format!("{}/{}", b, op.brief()), backend: b.into(), op, path: p.into() }); }
